@@ -221,8 +221,10 @@ def setup(world, cfg, record=None):
     def recording(pop, global_state, step):
       before = len(log)
       out = orig(pop, global_state=global_state, step=step)
-      record.setdefault('table', {})[step] = [world.idx(d) for d in out]
-      record.setdefault('events', {})[step] = list(log[before:])
+      # a call is identified by its step and the population it is applied to
+      key = '%d:%d:%d' % (step, sum(d.metadata.get('feedback_sequence_number', 0) for d in pop), len(pop))
+      record.setdefault('table', {})[key] = [world.idx(d) for d in out]
+      record.setdefault('events', {})[key] = list(log[before:])
       return out
     target.rebind(reproduction=recording)
   algo.setup(world.spec)
@@ -493,7 +495,7 @@ def modelled_real(cfg):
     return False
   if cfg['name'] == 'dedup':      # Deduping over the instantiated single-objective algorithms
     return cfg['inner']['kind'] == 'real' and cfg['inner']['name'] in ('regularized_evolution', 'hill_climb')
-  return cfg['name'] in ('nsga2', 'regularized_evolution', 'hill_climb')
+  return cfg['name'] in ('nsga2', 'regularized_evolution', 'hill_climb', 'neat')
 
 
 def modelled_algo(cfg):
@@ -507,6 +509,9 @@ def modelled_algo(cfg):
   if cfg['name'] == 'nsga2':
     return {'kind': 'evo', 'init': init, 'init_size': cfg['population_size'] * nsga2_init_factor(),
             'repro': ['table', 1], 'update': ['nsga2', cfg['population_size']]}
+  if cfg['name'] == 'neat':
+    return {'kind': 'evo', 'init': init, 'init_size': cfg['population_size'],
+            'repro': ['table', 1], 'update': ['neat', 0]}
   if cfg['name'] == 'regularized_evolution':
     return {'kind': 'evo', 'init': init, 'init_size': cfg['population_size'],
             'repro': ['c14reg', cfg['tournament_size']], 'update': ['c14last', cfg['population_size']]}
@@ -514,6 +519,16 @@ def modelled_algo(cfg):
     return {'kind': 'evo', 'init': init, 'init_size': cfg['init_population_size'],
             'repro': ['c14hill', cfg['batch_size']], 'update': ['c14top', 1]}
   raise ValueError(cfg['name'])
+
+
+def neat_view(obs):
+  """What the model predicts of a NEAT instance: counters, generation, population, living species."""
+  if 'error' in obs:
+    return obs
+  sp = (obs.get('gstate') or {}).get('living_species')
+  dr = lambda x: None if x is None else [x[1], x[2]]
+  return {'np': obs['np'], 'nf': obs['nf'], 'gen': obs['gen'], 'pop': obs['pop'],
+          'species': None if sp is None else [[dr(s['species']), [dr(m) for m in s['members']]] for s in sp]}
 
 
 def real_view(obs):
@@ -701,11 +716,13 @@ class C15(Prop):
           'crash point has a proposal in flight and some has a reward; distinct by (algo, space, events).')
   trusted_base = [
       'random.Random bit streams (the oracle stream fed to the model is recorded from the real PRNG)',
-      'reproduction / population-update operations of Evolution are parameters of the model: tied for the '
-      'deterministic operations of the harness and for the NSGA2 population update (non-dominated sort, '
-      'crowding distance, elites; PgModel/Nsga2.lean, objective values from {0,1,2} so that the float '
-      'arithmetic of the code is exact) with the mutator recorded as an oracle table; regularized_evolution, '
-      'hill_climb, NEAT (speciation lives in DNA.userdata and species representatives) run oracle-only',
+      'reproduction / population-update operations of Evolution are parameters of the model; they are tied for '
+      'the deterministic operations of the harness, for regularized_evolution / hill_climb (and Deduping over '
+      'them) through the C14 operator model PgModel/Evo.lean evaluated over the recorded PRNG draws of every '
+      '_evolve call, for the NSGA2 update (PgModel/Nsga2.lean; objective values from {0,1,2} so that the float '
+      'arithmetic of the code is exact) and the NEAT update (PgModel/Neat.lean; flat spaces) with the children '
+      'of their reproduction recorded as an oracle table; pipeline texts are translator facts',
+      'recorded PRNG draws: harness.c14.RecRandom with getrandbits overridden (same bit stream as random.Random)',
       'pg.to_json_str / pg.from_json_str of the history (C05); DNA identity = index in spec.iter_dna() (C11)',
       'Deduping._cache is read directly (no public accessor for the de-duplication memory)',
       'modelled, not verified: the generator state machines of PgModel/Gen.lean (tied by correspondence at '
@@ -804,7 +821,8 @@ class C15(Prop):
         np_ += 1
     return events
 
-  DIMS = [[3], [4], [5], [7], [2, 2], [3, 2], [2, 3], [2, 2, 2], [4, 3], [3, 3], [5, 4], [6, 4]]
+  DIMS = [[3], [4], [5], [7], [2, 2], [3, 2], [2, 3], [2, 2, 2], [4, 3], [3, 3], [5, 4], [6, 4],
+          [2, 2, 2, 2, 2, 2, 2, 2]]      # 8 decisions: NEAT species tolerate one differing decision
 
   def gen_sched(self, rng):
     phases = [[rng.randint(1, 5), rng.choice([['const', rng.randint(0, 4)], ['step']])]
@@ -873,7 +891,8 @@ class C15(Prop):
     if is_sched(case):
       return impl_out['model']
     if modelled_real(case['algo']) and 'model' in impl_out:
-      view = nsga2_view if modelled_nsga2(case['algo']) else real_view
+      view = (nsga2_view if modelled_nsga2(case['algo']) else
+              neat_view if case['algo']['name'] == 'neat' else real_view)
       return {'ks': [{'live': view(e['live']), 'rec': view(e['rec']), 'hist': e['hist'],
                       'live_next': [], 'rec_next': []} for e in impl_out['model']['ks']]}
     return Prop.project_impl(self, case, impl_out)
